@@ -224,6 +224,22 @@ func runConv(c J) J {
 				}
 			}
 		}
+		// a later compilation against b itself (same Go type, possibly another yae type) and its invocation with b:
+		// what was learnt from a must not leak into it
+		pair["second"] = "none"
+		if c3, err3 := yae.NewExpr().Compile(src, ifaceOf(obj(b))); err3 == nil {
+			o3 := invoke(func() (*val.Val, error) { return c3(ifaceOf(obj(b))) })
+			switch {
+			case o3.pan != nil:
+				pair["second"] = "panic"
+			case o3.err != nil:
+				pair["second"] = "error"
+			default:
+				pair["second"] = "value"
+			}
+		} else {
+			pair["second"] = "reject"
+		}
 		obs["pair"] = pair
 	}
 	return obs
